@@ -162,6 +162,13 @@ def run(ctx):
     binary = H.build(ctx.work, "asan")
     scns = make_scenarios(ctx, ctx.n(1500, 30000), 60)
     run_monitored(ctx, binary, scns, monitor, tag="hist")
+    # the same histories on size-optimised builds of both compilers and with plain char unsigned: behaviour must not depend
+    # on the optimisation level, the compiler or the ABI's choice for char
+    os_gcc, os_clang, uchar = H.build_many(ctx.work, [dict(flavour="plain-os"), dict(flavour="plain-clang-os"), dict(flavour="asan-uchar")])
+    third = max(1, len(scns) // 3)
+    run_monitored(ctx, os_gcc, scns[:third], monitor, tag="hist-os")
+    run_monitored(ctx, os_clang, scns[third:2 * third], monitor, tag="hist-clang-os")
+    run_monitored(ctx, uchar, scns[2 * third:], monitor, tag="hist-uchar")
     rep.need("discovers_judged", rep.counters.get("discovers_judged", 0), 1000)
     for cls in ("idle/hello", "active-same/hello", "active-other/silence", "opened-by-command/hello"):
         rep.need("class:" + cls, rep.counters.get("discover_judged:" + cls, 0), 50)
